@@ -224,6 +224,16 @@ where
             _ => {}
         }
     }
+    /// the source seen through `source()` and `source_mut()`: (is_exhausted, is_exhausted)
+    fn source_views(&mut self) -> Option<(bool, bool)> {
+        match self {
+            Sut::FloorDirect(c) => Some((c.source().is_exhausted(), c.source_mut().is_exhausted())),
+            Sut::LinearDirect(c) => Some((c.source().is_exhausted(), c.source_mut().is_exhausted())),
+            Sut::FloorClone(c) => Some((c.source().is_exhausted(), c.source_mut().is_exhausted())),
+            Sut::LinearClone(c) => Some((c.source().is_exhausted(), c.source_mut().is_exhausted())),
+            _ => None,
+        }
+    }
     /// replace the converter by its clone (true if this variant can)
     fn clone_swap(&mut self) -> bool {
         match self {
@@ -576,6 +586,10 @@ where
                     }
                 }
                 if op.k == O_PROBE {
+                    if let Some(views) = s.source_views() {
+                        let want = matches!(m.len, Some(l) if pulls.get() >= l);
+                        check_eq!(obs, views, (want, want), "converter.source-views", "source().is_exhausted() / source_mut().is_exhausted() after {} source pulls (length {:?})", pulls.get(), m.len);
+                    }
                     continue;
                 }
                 if ctl_exh {
